@@ -65,9 +65,14 @@ def model_order(rec):
     return [inv[int(x)] for x in out[0].split()]
 
 
-def cli_listing(rec, d, fmt):
+def cli_listing(rec, d, fmt, datafile=None):
     base = os.path.join(d, "f_%s.txt" % fmt)
     open(base + ".audit.json", "w").write(json.dumps(strip(rec), indent=4))
+    if datafile:
+        # the data file lies next to its record, older or newer than it (touched, copied without -p, restored from an archive)
+        open(base, "w").write("data\n")
+        t = os.stat(base + ".audit.json").st_mtime + (-30 if datafile == "older" else 30)
+        os.utime(base, (t, t))
     r = subprocess.run([CLI, "audit2" + fmt, base + ".audit.json"], capture_output=True, text=True, cwd=d, timeout=60)
     ext = {"html": "html", "tex": "tex", "bash": "sh"}[fmt]
     outp = base + ".audit." + ext
@@ -90,8 +95,9 @@ def tree_case(args):
     d = tempfile.mkdtemp(prefix="vc20_", dir=t3.SCRATCH_PARENT)
     problems = []
     try:
+        datafile = rng.choice([None, "older", "newer", "newer"])
         for fmt in ("html", "tex", "bash"):
-            got, text = cli_listing(rec, d, fmt)
+            got, text = cli_listing(rec, d, fmt, datafile)
             if got is None:
                 problems.append(("cli-fails", "audit2%s: %s" % (fmt, text)))
                 continue
@@ -102,7 +108,7 @@ def tree_case(args):
                 ids = [g[1] for g in got]
                 if sorted(ids) != sorted(want):
                     lost = [x for x in want if x not in ids]; dup = sorted({x for x in ids if ids.count(x) > 1})
-                    problems.append(("listing-lossy", "audit2%s does not list every task exactly once: lost %s, repeated %s" % (fmt, lost[:3], dup[:3])))
+                    problems.append(("listing-lossy", "audit2%s does not list every task exactly once%s: lost %s, repeated %s" % (fmt, " (the data file lies next to the record and is %s than it)" % datafile if datafile else "", lost[:3], dup[:3])))
                 elif ids != want:
                     problems.append(("listing-order", "audit2%s order %s, by start time (ties by ID) %s" % (fmt, ids[:6], want[:6])))
                 for name, x in got:
